@@ -21,6 +21,7 @@ def obligations(tier):
     obs.append(S.SOb('C02.valid[G4,n=2,tags=2,nbest=1,prune=1]', g4, 2, pruning=1, penalty='sym'))
     obs.append(S.SOb('C02.valid[G8,n=2,tags=2]', S.G8(), 2, pruning=2, penalty='sym'))
     obs.append(S.SOb('C02.valid[G8,n=2,tags=2,nbest=2]', S.G8(), 2, pruning=2, penalty='sym', nbest=2))
+    obs.append(S.SOb('C02.valid[G5,n=2,tags=2,empty root set]', dict(S.G5(True), roots=[], name='G5-noroot'), 2, pruning=2, penalty='0'))      # no category is an allowed root: every sentence fails
     obs.append(S.SOb('C02.valid[G6,n=1,tags=4,prune=2]', S.G6(), 1, pruning=2, penalty='sym'))
     obs.append(S.SOb('C02.valid[G5,n=2,tags=2,prune=1]', S.G5(True), 2, pruning=1, penalty='0'))
     obs.append(S.SOb('C02.valid[G6,n=1,tags=4,nbest=2]', S.G6(), 1, ([(0, 3)] if q else ()), pruning=4, penalty='sym', nbest=2))
